@@ -1208,6 +1208,21 @@ mod store {
         run("policy always, dead bytes above the trigger", MergePolicy::Always, 10, 1.0, true);
         println!("{{\"found\": false, \"evaluations\": 4, \"searched\": \"4 configurations of the background merge (never / always without trigger / always with trigger / always with a merge pass that fails first) on the real store with a 25 ms check interval; a merge is observed as a change of the set of data files\"}}");
     }
+    /// C18 (sync half; run under strace by tools/syncsearch.py): open the store with interval sync, keep writing for `dur` ms, exit
+    pub fn sync_run(policy: &str, interval_ms: u64, dur_ms: u64) {
+        use bitcask::storage::bitcask::VerifMergePolicy as MergePolicy;
+        let dir = tempfile::tempdir().unwrap();
+        let mut c = Config::default();
+        c.path(dir.path()).concurrency(1).max_file_size(1 << 20).sync(if interval_ms == 0 { SyncStrategy::None } else { SyncStrategy::IntervalMs(interval_ms) })
+            .merge_policy(if policy == "never" { MergePolicy::Never } else { MergePolicy::Always }).merge_trigger_dead_bytes(u64::MAX).merge_trigger_fragmentation(1.0)
+            .merge_check_interval_ms(1_000_000).merge_check_jitter(0.0);
+        let kv = c.open().unwrap();
+        let h = kv.get_handle();
+        let end = std::time::Instant::now() + std::time::Duration::from_millis(dur_ms);
+        let mut i = 0u64;
+        while std::time::Instant::now() < end { h.set(b("k"), b(&format!("v{}", i))).unwrap(); i += 1; std::thread::sleep(std::time::Duration::from_millis(10)); }
+        println!("WROTE {}", i);
+    }
     /// D11: an append that fails mid-entry (RLIMIT_FSIZE makes write(2) fail with EFBIG after a partial write)
     /// leaves a partial record that later appends follow; after a restart acknowledged data is gone.
     pub fn torn_append() {
@@ -1265,6 +1280,7 @@ fn main() {
         Some("client-search") => client_search(),
         Some("server-slots") => server_slots(),
         Some("store-background") => store::background(),
+        Some("store-sync-run") => store::sync_run(&a[2], a[3].parse().unwrap(), a[4].parse().unwrap()),
         Some("server-shutdown") => server_shutdown(a.get(2).map(|s| s.parse().unwrap()).unwrap_or(0)),
         Some("server-search") => server_search(a.get(2).map(|s| s.parse().unwrap()).unwrap_or(0)),
         Some("decimal-search") => decimal_search(a.get(2).map(|s| s.parse().unwrap()).unwrap_or(200000)),
